@@ -22,7 +22,7 @@ from vf.core import CaseResult, Ctx, Violation, hyp_run, exc_sig
 
 PROP_ID = 'C22'
 LEVEL = 'exploration'
-BUDGET = {'quick': 2400, 'thorough': 60000}
+BUDGET = {'quick': 1600, 'thorough': 60000}
 RULE = (
     'Hypothesis draws a history of 3-14 steps over a fixed workflow (root > '
     'FB > FA; t1 inherits FA, t2 inherits FB, t3 root only; integer cycling): '
@@ -34,7 +34,8 @@ RULE = (
     'occasionally an invalid key), clear(by points / namespaces / cancel '
     'settings, any combination), expire(cutoff 1-5), flush (process DB '
     'queue) and restart. After every step the manager state is compared '
-    'with a dict model and get_updated_rtconfig of t1,t2,t3 at points 1-4 '
+    'with a dict model and get_updated_rtconfig of t1,t2,t3 at every point '
+    'that has point-specific broadcasts and one that has none '
     'with static config overridden by *:root..task then point:root..task; '
     'at restart the reloaded state must equal the state before. '
     'Non-trivial = at least two accepted puts that set the same setting for '
@@ -496,7 +497,14 @@ def check_case(case, ctx: Ctx) -> CaseResult:
                 break
             # ---- what each task receives
             bad = None
+            # points with point-specific broadcasts, plus one without
+            chk_points = set(model.b) - {'*'}
+            chk_points.add(next(
+                (p for p in reversed(TASK_POINTS) if p not in chk_points),
+                '4'))
             for (t, p), itask in itasks.items():
+                if p not in chk_points:
+                    continue
                 rt = plain(mgr.get_updated_rtconfig(itask))
                 exp = copy.deepcopy(static[t])
                 _merge(exp, model.overrides(t, p))
